@@ -2,6 +2,7 @@ package main
 
 import (
 	"fmt"
+	"strings"
 
 	"mltwist/verifh/eng"
 )
@@ -132,11 +133,11 @@ func init() {
 
 	checks["C16"] = eng.Check{
 		Hist:        true,
-		Rule:        "Overlay(base, Sparse): base = each of the 64 Bytes layouts over addresses 0..5 and 4 pre-filled (fragmented, symbolic) Sparse memories; every history of <=2 (quick) / <=3 (thorough) stores (addr 0..5, width 1..3 (+4 quick depth<=2), constant/symbolic/narrower values and constants equal to the base layer's content at that place) through the real Overlay; after each history every Load/Missing for a in 0..7, w in {1,2,3,4,6,8} and Blocks() compared with the layered byte map (upper layer wins, else base), and the base's own full surface compared with its initial model. On the sparse bases and on every 9th (thorough: every) Bytes layout the histories of <=2 stores use the wide alphabet and are run in three read/write interleavings (reads after every store, none between the stores, none before the end). Non-trivial = history with >=2 stores.",
+		Rule:        "Overlay(base, Sparse): base = each of the 64 Bytes layouts over addresses 0..5 and 4 pre-filled (fragmented, symbolic) Sparse memories; every history of <=2 (quick) / <=3 (thorough) stores (addr 0..5, width 1..3 (+4 quick depth<=2), constant/symbolic/narrower values and constants equal to the base layer's content at that place) through the real Overlay; after each history every Load/Missing for a in 0..7, w in {1,2,3,4,6,8} and Blocks() compared with the layered byte map (upper layer wins, else base), and the base's own full surface compared with its initial model; plus reads of every width 1..72 over 9 layouts whose layer changes lie at offsets around 32 and 64 of the read. On the sparse bases and on every 9th (thorough: every) Bytes layout the histories of <=2 stores use the wide alphabet and are run in three read/write interleavings (reads after every store, none between the stores, none before the end). Non-trivial = history with >=2 stores.",
 		Assumptions: []string{"no address wrap", "values judged under 3 valuations"},
 		Run: func(r *eng.Run) {
 			alpha := memAlpha(seq(0, 5), seq(1, 3), []string{"const", "sym", "basecopy"})
-			alpha2 := memAlpha(seq(0, 5), seq(1, 4), []string{"const", "sym", "narrow", "basecopy", "samecopy"})
+			alpha2 := memAlpha(seq(0, 5), seq(1, 4), []string{"const", "sym", "narrow", "gadgetnarrow", "basecopy", "samecopy"})
 			depth := 2
 			if !r.Quick() {
 				depth = 3
@@ -185,6 +186,19 @@ func init() {
 				histories(r, alpha, 2, func(ops []memOp) {
 					memDo(r, memCase{Mem: "overlay", Base: b.kind, Blocks: b.blocks, Pre: b.pre, Ops: append([]memOp{}, ops...), Top: true, Far: true, MaxA: 7, MaxW: 4, ExtraW: []int{6, 8}})
 				})
+			}
+			// wide reads (every width 1..72 from the first addresses) that change layer far into the read:
+			// a long base block with small upper-layer writes at offsets around 32 and 64, and a base
+			// with holes that the upper layer fills
+			long := strings.Repeat("d0d1d2d3d4d5d6d7", 10)
+			for _, ops := range [][]memOp{
+				{{33, 1, "const"}, {40, 2, "sym"}, {64, 4, "const"}, {70, 3, "const"}},
+				{{31, 2, "const"}, {32, 1, "sym"}, {63, 2, "const"}},
+				{{0, 1, "const"}, {35, 3, "const"}, {66, 1, "const"}},
+			} {
+				memDo(r, memCase{Mem: "overlay", Base: "bytes", Blocks: []memBlock{{0, long}}, Ops: ops, MaxA: 3, MaxW: 72})
+				memDo(r, memCase{Mem: "overlay", Base: "bytes", Blocks: []memBlock{{0, long[:60]}, {36, long[:80]}}, Ops: append([]memOp{{30, 6, "const"}}, ops...), MaxA: 3, MaxW: 72})
+				memDo(r, memCase{Mem: "overlay", Base: "sparse", Pre: []memOp{{0, 30, "const"}, {34, 20, "sym"}, {60, 16, "const"}}, Ops: append([]memOp{{30, 4, "const"}, {54, 6, "sym"}}, ops...), MaxA: 3, MaxW: 72})
 			}
 			memTopEnd(r, []memCase{{Mem: "overlay", Base: "bytes"}, {Mem: "overlay", Base: "sparse"}})
 			r.Sample(memCase{Mem: "overlay", Base: "bytes", Blocks: layoutRuns(0b110011, 6), Ops: []memOp{{1, 3, "sym"}, {2, 1, "const"}}, MaxA: 7, MaxW: 4, ExtraW: []int{6, 8}})
